@@ -113,8 +113,8 @@ class Std:
 
 
 class Config:
-    def __init__(s, typ, rows, cols, stds, name=None):
-        s.typ = typ; s.rows = rows; s.cols = cols; s.stds = stds
+    def __init__(s, typ, rows, cols, stds, name=None, m_error=False):
+        s.typ = typ; s.rows = rows; s.cols = cols; s.stds = stds; s.m_error = m_error
         s.name = name or '%s-%dx%d-%s' % (NAMES[typ], rows, cols, '+'.join(x.tag() for x in stds))
     @property
     def ports(s): return max(s.rows, s.cols)
@@ -571,8 +571,9 @@ def leakage_counts(cfg, val):
     return cnt
 
 
-def expected_rows(cfg, L, models, Ms, El, evec_for_system):
-    """list per system of (tag, C residual)"""
+def expected_rows(cfg, L, models, Ms, El, evec_for_system, weights=None):
+    """list per system of (tag, C residual); weights = (interpreter, (sigma_nf, sigma_tr)): every residual is multiplied by the documented
+    weight 1 / sqrt(sigma_nf^2 + sigma_tr^2 |m|^2) of the equation's own measurement cell (sqrt uninterpreted)"""
     typ, rows, cols = cfg.typ, cfg.rows, cfg.cols
     nsys = L['systems']
     out = [[] for _ in range(nsys)]
@@ -582,7 +583,16 @@ def expected_rows(cfg, L, models, Ms, El, evec_for_system):
             if typ not in (T16, U16) and not sm.connected[r][c]: continue
             sysi = c if typ in COLSYS else 0
             res, ok = residual(cfg, L, sm, Mp, evec_for_system(sysi), r, c, sysi)
-            if ok: out[sysi].append(('std%d(%d,%d)' % (k, r, c), res))
+            wsq = None
+            if ok and weights is not None:
+                import irx
+                it_, (nf, tr) = weights
+                m_ = Mp[r][c] if (r < rows and c < cols and Mp[r][c] is not None) else None
+                if m_ is None: ok = False
+                else:
+                    w2 = (m_.re * m_.re + m_.im * m_.im) * (tr * tr) + nf * nf
+                    wsq = irx._uf(it_, 'sqrt', [w2])          # the assembled row must be residual / sqrt(w2): compared as row * sqrt(w2) == residual
+            if ok: out[sysi].append(('std%d(%d,%d)' % (k, r, c), res) if weights is None else ('std%d(%d,%d)' % (k, r, c), res, wsq))
     return out
 
 
@@ -602,6 +612,58 @@ def e12_from_ue14(cfg, L, e, El):
     return out
 
 
+def numeric_refute(exprs, seed=11, tries=3):
+    """z3 gave no verdict on 'all of exprs are identically zero': evaluate them in floating point at random rational points with the
+    uninterpreted sqrt read as the real square root.  A clearly non-zero value is a genuine counterexample (the real sqrt is one
+    interpretation of the uninterpreted function); returns the point or None."""
+    import z3, math, random
+    rnd = random.Random(seed)
+    def ev(e, env):
+        if z3.is_rational_value(e): return float(e.as_fraction())
+        if z3.is_algebraic_value(e): return float(e.approx(15).as_fraction())
+        if z3.is_const(e) and e.decl().kind() == z3.Z3_OP_UNINTERPRETED:
+            k = e.decl().name()
+            if k not in env: env[k] = (math.sqrt(float(k.split('_')[1]) / float(k.split('_')[2])) if k.startswith('sqrt_') else rnd.randint(-40, 40) / rnd.choice((3.0, 5.0, 7.0, 8.0)))
+            return env[k]
+        ch = [ev(c, env) for c in e.children()]
+        kd = e.decl().kind()
+        if kd == z3.Z3_OP_ADD: return sum(ch)
+        if kd == z3.Z3_OP_MUL:
+            r = 1.0
+            for c in ch: r *= c
+            return r
+        if kd == z3.Z3_OP_SUB: return ch[0] - sum(ch[1:])
+        if kd == z3.Z3_OP_UMINUS: return -ch[0]
+        if kd == z3.Z3_OP_DIV: return ch[0] / ch[1]
+        if kd == z3.Z3_OP_POWER: return ch[0] ** ch[1]
+        if kd == z3.Z3_OP_UNINTERPRETED:
+            nm = e.decl().name()
+            if nm == 'uf_sqrt': return math.sqrt(ch[0]) if ch[0] >= 0 else float('nan')
+            raise ValueError(nm)
+        raise ValueError(str(e.decl()))
+    for t in range(tries):
+        env = {}
+        try:
+            worst = 0.0; scale = 1e-9
+            for x in exprs:
+                if x.isconst(): v = float(x.value())
+                else:
+                    n = ev(x.z3num(), env); d = ev(x.z3den(), env)
+                    if d == 0 or n != n or d != d: raise ZeroDivisionError
+                    v = n / d
+                worst = max(worst, abs(v))
+            mags = [abs(v) for v in env.values()] or [1.0]
+            if worst > 1e-6 * max(1.0, max(mags)): return {k: v for k, v in list(env.items())[:16]}, worst
+        except (ValueError, ZeroDivisionError, OverflowError):
+            continue
+    return None
+
+
+def irx_NULL():
+    from irx import NULL
+    return NULL
+
+
 def symbolic_check(mod, cfg, choices=(), generic=True, holder=None):
     """one path of the symbolic run; raises irsym.Fork on an undecided comparison"""
     import z3, irsym
@@ -617,6 +679,19 @@ def symbolic_check(mod, cfg, choices=(), generic=True, holder=None):
     flow.create(); flow.new_alloc(cfg.typ, cfg.rows, cfg.cols, 1)
     if flow.vnp.obj is None: res['error'] = 'vnacal_new_alloc failed: %s' % it.errors; return res, flow
     assert flow.set_frequencies([Fraction(10 ** 9)]) == 0
+    wsym = None
+    if getattr(cfg, 'm_error', False):
+        # measurement-error model on: noise floor and signal-proportional part are free positive symbols; the p-value test is hooked away
+        nf = Rat(z3.Real('sigma_nf')); tr = Rat(z3.Real('sigma_tr'))
+        it.path.append(z3.Real('sigma_nf') > 0); it.path.append(z3.Real('sigma_tr') > 0)
+        assert flow.icall('vnacal_new_set_m_error', [flow.vnp, irx_NULL(), 1, flow.dvec([nf]), flow.dvec([tr])]) == 0
+        it.hooks['_vnacal_new_solve_calc_pvalue'] = lambda it_, a: Rat.const(1.0)
+        # over-determined systems iterate on the V matrices until the solution stops moving: the V update is hooked away (V stays at its
+        # initial value) and only the paths that take 'converged' at the first test are examined (the others re-assemble the same system)
+        it.hooks['_vnacal_new_solve_update_v_matrices'] = lambda it_, a: 0
+        assert flow.icall('vnacal_new_set_iteration_limit', [flow.vnp, 2]) == 0
+        assert flow.icall('vnacal_new_set_et_tolerance', [flow.vnp, Rat.const(1e30)]) == 0      # the V iteration stops after its first pass
+        wsym = (nf, tr)
     symcache = {}
     def val(spec, tag):
         if isinstance(spec, str): return cconst(PRE[spec][1])
@@ -637,8 +712,12 @@ def symbolic_check(mod, cfg, choices=(), generic=True, holder=None):
     res['systems'] = [{'equations': len(A), 'unknowns': unknowns} for A, b, xs in flow.captured]
     if rc != 0:
         res['notes'].append('solve failed: %s' % it.errors[-1:])
+        if wsym is not None: res['skipped'] = True
         return res, flow
     nsys = L['systems']
+    if len(flow.captured) != nsys and wsym is not None:
+        res['notes'].append('V-matrix iteration path (%d solves): not examined' % len(flow.captured)); res['skipped'] = True
+        return res, flow
     if len(flow.captured) != nsys:
         res['sat'].append({'q': 'one linear system per column system', 'detail': 'captured %d systems, expected %d' % (len(flow.captured), nsys)}); return res, flow
     # e(x): unity inserted per system, leakage appended
@@ -651,16 +730,26 @@ def symbolic_check(mod, cfg, choices=(), generic=True, holder=None):
         for c in range(cfg.cols):
             if r != c and typ in (TE10, UE10, UE14, E12U): e.append(El[r][c])
     ut = L['t_terms']
-    exp = expected_rows(cfg, L, models, Ms, El, lambda si: e[si * ut:(si + 1) * ut] if typ in (UE14, E12U) else e)
+    exp = expected_rows(cfg, L, models, Ms, El, lambda si: e[si * ut:(si + 1) * ut] if typ in (UE14, E12U) else e, weights=(it, wsym) if wsym else None)
     # --- soundness + completeness, per system
     def prove_zero(cs, what):
         ex = []
         for c_ in cs: ex += [c_.re, c_.im]
+        if wsym is not None:
+            # identities with the uninterpreted sqrt: z3 proves the true ones at once but can run for minutes on a false one - a floating
+            # point evaluation at random points (sqrt read as the real square root) refutes those first; only z3 can accept
+            nr = numeric_refute(ex)
+            if nr is not None:
+                res['queries'] += 1
+                res['sat'].append({'q': what, 'model': nr[0], 'numeric_difference': nr[1], 'note': 'refuted numerically with sqrt read as the real square root'}); return False
         st_, mdl = irsym.check_zero(it, ex, timeout_ms=60000)
         res['queries'] += 1
         if st_ == 'unsat': res['unsat'] += 1; return True
         if st_ == 'sat':
             res['sat'].append({'q': what, 'model': {d.name(): str(mdl[d]) for d in mdl.decls()}}); return False
+        nr = numeric_refute(ex)
+        if nr is not None:
+            res['sat'].append({'q': what, 'model': nr[0], 'numeric_difference': nr[1], 'note': 'z3 undecided; refuted numerically with sqrt read as the real square root'}); return False
         res['unknown'].append({'q': what, 'why': str(mdl)}); return None
     for si, (A, b, xs) in enumerate(flow.captured):
         rows_ = []
@@ -669,8 +758,29 @@ def symbolic_check(mod, cfg, choices=(), generic=True, holder=None):
             for j in range(len(xs)):
                 if not A[i][j].iszero(): acc = acc + A[i][j] * xs[j]
             rows_.append(acc)
+        if wsym is not None:
+            # weighted systems: row_i * sqrt(w2_tag) == +/- residual_tag; the expected order is the library's equation order, tried first
+            used = set()
+            for i, r_ in enumerate(rows_):
+                order = [x for x in exp[si][i:i + 1] + exp[si] if x[0] not in used]
+                hit = None; n_unk0 = len(res['unknown'])
+                for tag, er, wq in order:
+                    rw = C(r_.re * wq, r_.im * wq)
+                    for sg in (+1, -1):
+                        if prove_zero([(rw - er) if sg > 0 else (rw + er)], 'system %d row %d * sqrt(sigma_nf^2 + sigma_tr^2 |m|^2) == %s residual %s' % (si, i, '+' if sg > 0 else '-', tag)):
+                            hit = tag; break
+                        if res['sat'] and res['sat'][-1].get('q', '').startswith('system %d row %d *' % (si, i)): res['sat'].pop()
+                    if hit: break
+                if hit is None and len(res['unknown']) == n_unk0:
+                    res['sat'].append({'q': 'weights: system %d row %d is a documented residual cell times the documented weight of its own measurement' % (si, i), 'row': _key(r_)[:400]})
+                elif hit is not None: used.add(hit)
+            missing = [x[0] for x in exp[si] if x[0] not in used]
+            if missing and not res['unknown']:
+                res['sat'].append({'q': 'completeness: system %d uses every documented residual cell whose factors are all known' % si, 'missing': missing})
+            continue
         ekeys = {}
         for tag, r_ in exp[si]:
+
             ekeys.setdefault(_key(r_), []).append((tag, r_, +1)); ekeys.setdefault(_key(-r_), []).append((tag, r_, -1))
         used = set()
         for i, r_ in enumerate(rows_):
@@ -1213,6 +1323,8 @@ def native_program(cfg, seed=1, tol=1e-6, compare_with=None, unrelated=False):
                     body.append('    int pm%s_%d[%d] = {%s};' % (tagc, k, len(st.ports), ', '.join(str(p) for p in st.ports))); pm = 'pm%s_%d' % (tagc, k)
                 call = 'vnacal_new_add_mapped_matrix%s(%s, s%s_%d, %d, %d, %s)' % (sfx, pre, tagc, k, st.s_rows, st.s_cols, pm)
             body.append('    CHECK(%s);' % call)
+        if getattr(cf_, 'm_error', False):
+            body.append('    { static const double nf[1] = {1e-4}, tr[1] = {1e-3}; CHECK(vnacal_new_set_m_error(vnp%s, NULL, 1, nf, tr)); }' % tagc)
         body.append('    CHECK(vnacal_new_solve(vnp%s));' % tagc)
         body.append('    int ci%s = vnacal_add_calibration(vcp, "cal%s", vnp%s); CHECK(ci%s);' % (tagc, tagc, tagc, tagc))
     calibrate(cfg, 'A')
@@ -1274,9 +1386,10 @@ def cal_worker(mod, job):
         out['unexplored'] += r.get('unexplored', [])
         funcs.update(r.get('funcs', []))
         if r.get('error'): out['sat'].append({'q': 'the documented call sequence is accepted', 'detail': r['error'], 'path': r['path']})
+        elif r.get('skipped'): out['skipped_paths'] = out.get('skipped_paths', 0) + 1
         elif r.get('solve_rc', 0) != 0: out['solve_failed_paths'] += 1
         elif out['systems'] is None: out['systems'] = r.get('systems')
-    if rs and out['solve_failed_paths'] == len(rs) and not job.get('expect_underdetermined'):
+    if rs and out['solve_failed_paths'] == len(rs) - out.get('skipped_paths', 0) and out['solve_failed_paths'] and not job.get('expect_underdetermined'):
         out['sat'].append({'q': 'vnacal_new_solve succeeds on a determining set of standards', 'detail': 'solve failed on every path: %s' % rs[0].get('notes')})
     out['funcs'] = sorted(funcs)
     if job.get('concrete', True) and out['fault'] is None:
